@@ -7,9 +7,40 @@ SPEC = Spec(
         Harness(name="retry", module="exporter", pkg="exporter/exporterhelper",
                 files={"zz_verif_c05_retry_test.go": "c05/retry_test.go"},
                 test="TestVerifC05Retry", driver="drv_c05", go="go1.26",
-                n={"quick": 4000, "thorough": 60000}, timeout_s=1500),
+                n={"quick": 6000, "thorough": 150000}, timeout_s=1500),
+        Harness(name="errs", module="exporter", pkg="exporter/exporterhelper/internal",
+                files={"zz_verif_c05_errs_test.go": "c05/errs_test.go"},
+                test="TestVerifC05Errs", driver="drv_c05", n={"quick": 4000, "thorough": 100000}),
+        Harness(name="validate", module="exporter", pkg="exporter/exporterhelper/internal",
+                files={"zz_verif_c05_errs_test.go": "c05/errs_test.go"},
+                test="TestVerifC05Validate", driver="drv_c05", n={"quick": 4000, "thorough": 100000}),
     ],
-    rule="",
-    trusted_base=[],
-    assumptions=[],
+    rule="retry: the REAL exporter chain built by exporterhelper.NewLogs/NewTraces/NewMetrics (obsReport -> retrySender -> timeoutSender -> "
+         "scripted pusher, queue off) inside a testing/synctest bubble (virtual time). Case = validated back-off config (zeros, multipliers "
+         "0/0.5/1/1.25/1.375/1.5/2/3/10, rf 0/.1/.25/.5/.75/1, optional per-attempt timeout) x script of 0-12 backend outcomes (ok, transient, "
+         "permanent, throttle d, partial failure naming a remainder, wait-for-context, other-signal partial error; classification layers in "
+         "random order between random fmt %w / errors.Join / multierr wrappers) x shutdown / cancellation / deadline placed before, inside or "
+         "after specific attempts and waits of a dry run of the same case. rf>0: the value NextBackOff returns is learnt from a mirror "
+         "ExponentialBackOff fed by the same seeded math/rand source and passed to the model (drawn=). Cases where an external event falls on "
+         "exactly the instant of an independent timer are not compared (stat tie_skipped). Corpus first (DESIGN probe; zero-delay + shutdown / "
+         "cancel during the attempt; shutdown+cancel both pending; throttle/partial/permanent; deadline). thorough adds every script of "
+         "length <=3 over 6 outcome kinds x 16 event placements x 2 configs. non-trivial = at least two attempts; distinct = sha1 of op lines. "
+         "errs: random wrap/join error trees (depth<=5) classified by the real IsPermanent / IsShutdownErr / errors.As(throttleRetry) / "
+         "errors.As(consumererror.Logs). validate: BackOffConfig.Validate + TimeoutConfig.Validate incl. rejected configs.",
+    trusted_base=[
+        "Lean 4.33.0 kernel; axioms per theorem listed under axioms_per_theorem (subset of propext, Classical.choice, Quot.sound)",
+        "hand-written model of retrySender.Send + timeoutSender + cenkalti/backoff/v5 ExponentialBackOff (NextBackOff, incrementCurrentInterval) "
+        "+ OnError narrowing + errors.As classification, tied by exact differential on every run (payload and virtual timestamp of every call, "
+        "returned error class)",
+        "float64 arithmetic of the back-off library is modelled over exact fractions; the harness keeps durations < 2^44 ns and multipliers "
+        "with numerators < 128 where float64 products/quotients decide the same comparisons (checked by the differential)",
+        "the library's random draw is an input with the law LibLaw (interval*(1-rf)-1 <= drawn <= interval*(1+rf)+1)",
+        "Go runtime: select, timers, context, testing/synctest virtual clock",
+    ],
+    assumptions=[
+        "an external event (shutdown, cancellation, deadline) falling on exactly the instant an independent timer fires is outside the theorem "
+        "(either order is possible in Go); the model lets the timer win, such cases are skipped by the harness",
+        "durations fit int64 nanoseconds without overflow",
+        "the theorems are about the repaired retry loop (fix commit in /tmp/wt-C05: poll stopCh, then ctx.Err(), before the blocking select)",
+    ],
 )
